@@ -221,6 +221,11 @@ namespace _fmt_basics {
 
 	template<typename T, Sink S>
 	void format_integer(T object, format_options fo, S &sink) {
+		if(fo.conversion == format_conversion::character) {
+			sink.append(static_cast<char>(object));
+			return;
+		}
+
 		int radix = 10;
 		if(fo.conversion == format_conversion::hex) {
 			radix = 16;
